@@ -495,8 +495,9 @@ class Blueprints(yamlize.Object, metaclass=_BlueprintsPluginCollector):
         references = None
         for a in self.assemblies.values():
             if references is None:
+                # the first assembly is the reference of the others; its own blocks are
+                # compared with each other below like those of any other assembly
                 references = (a, a.getArea())
-                continue
 
             assemblyArea = a.getArea()
             if isinstance(a, assemblies.RZAssembly):
